@@ -34,6 +34,7 @@ type tsyncScript struct {
 	NNP        bool     `json:"nnp"`
 	Preload    bool     `json:"preload"` // the loader first loads the same policy without thread-sync
 	Divergent  bool     `json:"divergent"` // the first phase thread installs a private filter (policy B) before the load
+	OuterENOSYS bool    `json:"outer_enosys"` // the whole process already runs under a filter that answers ENOSYS to seccomp(2) (as if the kernel lacked it)
 }
 
 type tsyncThread struct {
@@ -169,6 +170,15 @@ func childTSync(args []string) {
 		}()
 	}
 	started.Wait()
+	if sc.OuterENOSYS {
+		// ld nr; jeq 317 (seccomp) -> ret ERRNO|ENOSYS; ret ALLOW   -- installed on every thread through the raw syscall
+		outer := rawProg{{0x20, 0, 0, 0}, {0x15, 0, 1, 317}, {0x06, 0, 0, 0x00050026}, {0x06, 0, 0, 0x7fff0000}}
+		syscall.RawSyscall(syscall.SYS_PRCTL, prSetNoNewPrivs, 1, 0)
+		if e := rawSeccompLoad(outer, len(outer), 1); e != 0 {
+			s := "outer filter could not be installed: " + e.Error()
+			rep.Err = &s
+		}
+	}
 	// let the threads reach their phase and record what /proc shows
 	deadline := time.Now().Add(2 * time.Second)
 	for {
